@@ -174,7 +174,7 @@ theorem inv_addMesh (w : W) (name : String) (id : Nat) (m : PMesh) (mat : Option
   · split
     · exact hw
     · have h0 : Inv { w with meshIdx := mapInsert w.meshIdx (id, mat) w.meshes.length } := inv_congr hw ⟨rfl, rfl, rfl, rfl⟩
-      simp only
+      simp only [meshDataFor]
       split
       · exact inv_congr h0 ⟨rfl, rfl, rfl, rfl⟩
       · exact inv_congr (inv_writeMeshData _ id m h0 hm) ⟨rfl, rfl, rfl, rfl⟩
@@ -586,7 +586,7 @@ theorem addMesh_refs (w : W) (name : String) (id : Nat) (m : PMesh) (mat : Optio
         rcases mem_mapInsert _ _ _ _ hp with h | h
         · have := hw.meshIdx p h; simp at this ⊢; omega
         · subst h; simp
-      simp only
+      simp only [meshDataFor]
       split
       · rename_i attrs idx hl
         obtain ⟨ha, hi⟩ := h0.written _ (lookup_mem _ _ _ hl)
@@ -729,7 +729,7 @@ theorem addMesh_nodes (w : W) (name : String) (id : Nat) (m : PMesh) (mat : Opti
   · rfl
   · split
     · rfl
-    · simp only
+    · simp only [meshDataFor]
       split
       · rfl
       · obtain ⟨k, _⟩ := writeAttrs_refs { w with meshIdx := mapInsert w.meshIdx (id, mat) w.meshes.length } [] m.written (by simp)
